@@ -13,6 +13,12 @@
 (*                 (k+j)-th chunk iff it exists and leaves min(k+j+1,      *)
 (*                 Count) chunks consumed (layer 1), for j in 1..MaxJ      *)
 (*                 interleaved freely with next()                          *)
+(*   ConsumeOK     count() / last() (= next until None: layer 2), at every *)
+(*                 reachable state: the number of chunks to come and     *)
+(*                 chunk Count-1 (layer 1)                                 *)
+(*   FieldsOK, and all of the above across SetBin / SetHop / SetFrames:    *)
+(*                 the public fields assigned between calls (at most       *)
+(*                 MaxSet times); layer 1 re-bases (Window.tla, VSetBin..) *)
 (* (HintPinnedOK -- the size_hint formula of the pinned code -- is NOT an  *)
 (* invariant of the gating configurations: MC_Window_ascoded.cfg shows TLC *)
 (* refuting it, e.g. L = b.)  Also checks the Hann table and writes the    *)
@@ -20,42 +26,61 @@
 (***************************************************************************)
 EXTENDS Window, FiniteSets, TLC, Json, IOUtils, SequencesExt
 
-CONSTANTS MaxL, MaxB, MaxH, MaxJ
-VARIABLES L, b, h,
+CONSTANTS MaxL, MaxB, MaxH, MaxJ,
+          MaxSet    \* assignments to the public fields per behaviour
+VARIABLES L,        \* length of the caller's frame array
+          b, h,     \* layer 2: the public fields bin, hop (w is the public field `frames`)
           w,        \* layer 2: [off, rem]
-          k,        \* layer 2: chunks consumed so far (counted while stepping)
-          k1,       \* layer 1: chunks consumed so far (NthAfter)
+          k,        \* layer 2: chunks yielded since the last assignment (counted while stepping)
+          v,        \* layer 1: [base, len, b, h, k] (Window.tla)
           last,     \* [some, at] of the last next() / nth(), and what layer 1 wants [wsome, wat]
-          done      \* next() / nth() has returned None
-vars == << L, b, h, w, k, k1, last, done >>
+          done,     \* next() / nth() has returned None
+          nset      \* assignments so far
+vars == << L, b, h, w, k, v, last, done, nset >>
 
+NoLast == [some |-> FALSE, at |-> 0, wsome |-> FALSE, wat |-> 0]
 Init == /\ L \in 0..MaxL /\ b \in 2..MaxB /\ h \in 1..MaxH
-        /\ w = WNew(L) /\ k = 0 /\ k1 = 0 /\ done = FALSE
-        /\ last = [some |-> FALSE, at |-> 0, wsome |-> FALSE, wat |-> 0]
+        /\ w = WNew(L) /\ k = 0 /\ v = VNew(L, b, h) /\ done = FALSE /\ nset = 0
+        /\ last = NoLast
 \* nth(j); j = 0 is next()
 Advance(j) ==
   /\ LET r == WNth(w, b, h, j) IN
      /\ w' = r.w /\ k' = k + r.cnt /\ done' = ~r.some
-     /\ k1' = NthAfter(L, b, h, k1, j)
+     /\ v' = VNthAfter(v, j)
      /\ last' = [some |-> r.some, at |-> r.at,
-                 wsome |-> NthHas(L, b, h, k1, j), wat |-> IF NthHas(L, b, h, k1, j) THEN ChunkOffset(k1 + j, h) ELSE r.at]
-  /\ UNCHANGED << L, b, h >>
+                 wsome |-> VNthHas(v, j), wat |-> IF VNthHas(v, j) THEN VChunkStart(v, v.k + j) ELSE r.at]
+  /\ UNCHANGED << L, b, h, nset >>
 NextChunk == ~done /\ Advance(0)
 NthChunk == ~done /\ \E j \in 1..MaxJ : Advance(j)
 \* None is sticky
 After == done /\ WNext(w, b, h).some = FALSE /\ UNCHANGED vars
-Next == NextChunk \/ NthChunk \/ After
+\* the public fields assigned between calls (layer 2: the field changes, nothing else; layer 1: re-based)
+Assigned == /\ nset < MaxSet /\ nset' = nset + 1 /\ k' = 0 /\ done' = FALSE /\ last' = NoLast /\ UNCHANGED L
+SetBin == /\ Assigned /\ \E nb \in (2..MaxB) \ {b} : b' = nb /\ v' = VSetBin(v, nb)
+          /\ UNCHANGED << h, w >>
+SetHop == /\ Assigned /\ \E nh \in (1..MaxH) \ {h} : h' = nh /\ v' = VSetHop(v, nh)
+          /\ UNCHANGED << b, w >>
+SetFrames == /\ Assigned /\ \E o \in 0..L : \E n \in 0..(L - o) : w' = [off |-> o, rem |-> n] /\ v' = VSetFrames(v, o, n)
+             /\ UNCHANGED << b, h >>
+Next == NextChunk \/ NthChunk \/ After \/ SetBin \/ SetHop \/ SetFrames
 Spec == Init /\ [][Next]_vars
 
-ChunkContent == last.some => /\ last.at = ChunkOffset(k - 1, h)
-                             /\ last.at + b <= L /\ HasChunk(L, b, h, k - 1)
-ChunkCount == /\ k <= Count(L, b, h)
-              /\ (done => k = Count(L, b, h) /\ ~HasChunk(L, b, h, k))
-HintOK == WHint(w, b, h) = Remaining(L, b, h, k)              \* also after the end: 0
-NthOK == k = k1 /\ last.some = last.wsome /\ last.at = last.wat
-HintPinnedOK == ~done => HintConsistent(WHintPinned(w, b, h), TRUE, WHintPinned(w, b, h), Remaining(L, b, h, k))
-Coverage == \* the remaining slice is exactly what layer 1 has not consumed
-  ~done => (w.off + w.rem = L) /\ (w.rem > 0 => w.off = k * h) /\ (w.rem = 0 /\ k > 0 => k * h >= L)
+ChunkContent == last.some => /\ last.at = VChunkStart(v, k - 1)
+                             /\ last.at + b <= v.base + v.len /\ HasChunk(v.len, b, h, k - 1)
+ChunkCount == /\ k <= VCount(v)
+              /\ (done => k = VCount(v) /\ ~HasChunk(v.len, b, h, k))
+HintOK == WHint(w, b, h) = VRemaining(v)                       \* also after the end: 0
+NthOK == k = v.k /\ last.some = last.wsome /\ last.at = last.wat
+FieldsOK == v.b = b /\ v.h = h /\ v.base + v.len <= L
+HintPinnedOK == ~done => HintConsistent(WHintPinned(w, b, h), TRUE, WHintPinned(w, b, h), VRemaining(v))
+Coverage == \* the remaining slice is exactly what layer 1 has not consumed (at every state, also after assignments)
+  /\ w.off = v.base + VConsumed(v) /\ w.rem = v.len - VConsumed(v)
+  /\ (w.rem = 0 /\ k > 0 => k * h >= v.len)
+\* the consuming provided methods, from every reachable state: count() = chunks still to come, last() = chunk Count-1
+ConsumeOK ==
+  LET d == WDrain(w, b, h) IN
+  /\ d.cnt = VRemaining(v) /\ d.some = VLastHas(v)
+  /\ (d.some => d.at = VChunkStart(v, VLastIdx(v)) /\ d.at + b <= v.base + v.len)
 
 ASSUME HannTableOK
 ASSUME SineTableOK
@@ -98,14 +123,111 @@ EvalOut == << EvalOp(1, 1, 1), EvalOp(0, 1, -1), EvalOp(-1, 4, 0), EvalOp(5, 4, 
 FnStim == { << [ev |-> "reset", comp |-> "winfn", cfg |-> [kind |-> kd, fmt |-> f]] >>
             \o (IF kd = "rect" THEN EvalIn \o EvalOut ELSE EvalIn)
             : kd \in {"hann", "rect"}, f \in {"f64", "f32", "i16"} }
+---------------------------------------------------------------------------
+(* round 4: the other ways a windower VALUE is used.  Ops carry the slot `w` of the windower they address  *)
+(* (0 = the one built by the reset line; clone{w, to} fills another slot), `via` = how the frames of a     *)
+(* yielded chunk are read (0 next, 1 by_ref().take(b), 2 nth(0), 3 half from a clone of the chunk, 4 nth(1) *)
+(* repeated, 5 step_by(2), 6 skip(1): Trace_Window ViaPos), and                                             *)
+(* the reset line `ctor` = "new" (Windower::new) or "named" (Windower::hann / Windower::rectangle).        *)
+(* hops beyond L + 1 all behave alike (one chunk iff L >= b): these families take h <= L + 1.              *)
+Trip == { t \in (0..MaxL) \X (2..MaxB) \X (1..MaxH) : t[3] <= t[1] + 1 }
+Rep(n, s) == [i \in 1..(n * Len(s)) |-> s[((i - 1) % Len(s)) + 1]]
+NxW(s, vi) == [ev |-> "next", a |-> [w |-> s, via |-> vi]]
+HintW(s) == [ev |-> "size_hint", a |-> [w |-> s]]
+CloneOp(s, to) == [ev |-> "clone", a |-> [w |-> s, to |-> to]]
+TermOp(e, s, vi) == [ev |-> e, a |-> [w |-> s, via |-> vi]]                  \* last, count, fold, for_each: consume slot s
+JOp(e, s, j, vi) == [ev |-> e, a |-> [w |-> s, k |-> j, via |-> vi]]         \* find, position, any, all (predicate fires at call j)
+TakeOp(s, m, vi) == [ev |-> "take", a |-> [w |-> s, m |-> m, via |-> vi]]    \* the first m items of by_ref().take(m)
+SetBinOp(s, nb) == [ev |-> "set_bin", a |-> [w |-> s, b |-> nb]]
+SetHopOp(s, nh) == [ev |-> "set_hop", a |-> [w |-> s, h |-> nh]]
+SetFramesOp(s, o, n) == [ev |-> "set_frames", a |-> [w |-> s, off |-> o, len |-> n]]
+WResetC(kf, ct, LL, bb, hh) ==
+  [ev |-> "reset", comp |-> "windower",
+   cfg |-> [kind |-> kf[1], fmt |-> kf[2][1], ch |-> kf[2][2], b |-> bb, h |-> hh, ctor |-> ct,
+            frames |-> [i \in 1..LL |-> FrameVal(i, kf[2][2])]]]
+KFof(x) == KF[(x % 8) + 1]
+Ctor(x) == IF x % 2 = 0 THEN "new" ELSE "named"
+Terms == << "last", "count", "fold", "for_each" >>
+JOps == << "find", "position", "any", "all" >>
+\* consuming methods after p chunks (last: p = 0 and 1; the others: one of the two), and the searching
+\* methods / take aimed at the last chunk and one past it
+ProvStim ==
+  UNION { LET LL == t[1]  bb == t[2]  hh == t[3]  c == Count(LL, bb, hh)  x == LL + bb + hh IN
+          { LET e == ep[1]  p == ep[2] IN
+            << WResetC(KFof(x + e + p), Ctor(x + p), LL, bb, hh) >> \o Rep(p, << NxW(0, p) >>)
+               \o << HintW(0), TermOp(Terms[e], 0, (x + e) % 7) >>
+            : ep \in { y \in (1..4) \X (0..1) : y[2] <= c /\ (y[1] = 1 \/ y[2] = Min2(c, (x + y[1]) % 2)) } }
+          \cup
+          { LET p == IF c >= 2 THEN (x + e + j) % 2 ELSE 0 IN
+            << WResetC(KFof(x + e + j), Ctor(x + j), LL, bb, hh) >> \o Rep(p, << NxW(0, 0) >>)
+               \o << (IF e = 5 THEN TakeOp(0, j - p + 1, (x + j) % 7) ELSE JOp(JOps[e], 0, j - p, (x + j) % 7)),
+                      HintW(0), NxW(0, 1), HintW(0) >>
+            : e \in 1..5, j \in { y \in {c - 1, c} : y >= 0 } }
+          : t \in Trip }
+\* a clone taken after p chunks; both continue, interleaved, to their ends; a consuming method on the clone
+\* leaves the original where it was; a clone of a clone
+CloneStim ==
+  UNION { LET LL == t[1]  bb == t[2]  hh == t[3]  c == Count(LL, bb, hh)  x == LL + bb + hh IN
+          { << WResetC(KFof(x + p), Ctor(x), LL, bb, hh) >> \o Rep(p, << NxW(0, 0) >>) \o << CloneOp(0, 1) >>
+               \o Rep(c - p + 1, << HintW(1), NxW(1, p + 4), HintW(0), NxW(0, 0) >>)
+            : p \in { q \in 0..2 : q <= c } }
+          \cup
+          { << WResetC(KFof(x + p + 3), Ctor(x + 1), LL, bb, hh) >> \o Rep(p, << NxW(0, 0) >>)
+               \o << CloneOp(0, 1), TermOp(Terms[1 + ((x + p) % 2)], 1, 0), HintW(0), NxW(0, 3), HintW(0) >>
+            : p \in { q \in 0..1 : q <= c } }
+          \cup
+          { << WResetC(KFof(x + 5), "new", LL, bb, hh), NxW(0, 0), CloneOp(0, 1), NxW(1, 0), CloneOp(1, 2),
+               HintW(2), NxW(2, 0), HintW(1), NxW(1, 0), NxW(0, 0), HintW(2), NxW(2, 2) >> }
+          : t \in Trip }
+\* the public fields assigned after p chunks; afterwards the windower is asked to its (new) end.  The tail
+\* length comes from layer 1 (VSet*).
+TailOf(vv) == Rep(VCount(vv) + 1, << HintW(0), NxW(0, 0) >>)
+VAt(LL, bb, hh, p) == IF p = 0 THEN VNew(LL, bb, hh) ELSE [VNew(LL, bb, hh) EXCEPT !.k = Min2(p, Count(LL, bb, hh))]
+SetStim ==
+  UNION { LET LL == t[1]  bb == t[2]  hh == t[3]  c == Count(LL, bb, hh)  x == LL + bb + hh IN
+          { LET v0 == VAt(LL, bb, hh, p) IN
+            << WResetC(KFof(2 * (x + nb + p)), Ctor(x + nb), LL, bb, hh) >> \o Rep(p, << NxW(0, 0) >>)
+               \o << SetBinOp(0, nb) >> \o TailOf(VSetBin(v0, nb))
+            : nb \in (2..(MaxB + 1)) \ {bb}, p \in { q \in 0..1 : q <= c } }
+          \cup
+          { LET p == IF c >= 1 THEN (x + nh) % 2 ELSE 0
+                v0 == VAt(LL, bb, hh, p) IN
+            << WResetC(KFof(x + nh), Ctor(x), LL, bb, hh) >> \o Rep(p, << NxW(0, 0) >>)
+               \o << SetHopOp(0, nh) >> \o TailOf(VSetHop(v0, nh))
+            : nh \in {1, hh + 1, bb, LL + 1} \ {hh} }
+          \cup
+          { LET p == Min2(c, sf[3])
+                v0 == VAt(LL, bb, hh, p) IN
+            << WResetC(KFof(x + sf[1] + sf[2]), Ctor(x + 1), LL, bb, hh) >> \o Rep(p, << NxW(0, 0) >>)
+               \o << SetFramesOp(0, sf[1], sf[2]) >> \o TailOf(VSetFrames(v0, sf[1], sf[2]))
+            : sf \in { << 0, LL, 1 >>, << 0, LL, 2 >>, << Min2(1, LL), LL - Min2(1, LL), 0 >>,
+                       << 0, LL - Min2(1, LL), 1 >>, << LL \div 2, LL - (LL \div 2), 1 >> } }
+          \cup
+          \* two assignments, a chunk in between, and a clone taken after the first
+          { LET p == Min2(c, 1)
+                v1 == VSetBin(VAt(LL, bb, hh, p), bb + 1)
+                v2 == VSetHop(VNthAfter(v1, 0), hh + 1) IN
+            << WResetC(KFof(2 * x), "new", LL, bb, hh) >> \o Rep(p, << NxW(0, 0) >>)
+               \o << SetBinOp(0, bb + 1), HintW(0), CloneOp(0, 1), NxW(0, 0), SetHopOp(0, hh + 1) >> \o TailOf(v2)
+               \o Rep(VCount(v1) + 1, << HintW(1), NxW(1, 0) >>) }
+          : t \in Trip }
+\* the stand-alone Window iterator reached in other ways than next(): a second instance (slot 1, built by
+\* `new`), clones, nth / step_by / by_ref().take, size_hint, the public `phase` field re-assigned (`rewind`)
+WOp(e, s) == [ev |-> e, a |-> [w |-> s]]
+WNthOp(s, j) == [ev |-> "nth", a |-> [w |-> s, k |-> j]]
+WinWalk(nn) ==
+  << WOp("new", 1), WOp("size_hint", 1), WOp("next", 1), [ev |-> "clone", a |-> [w |-> 1, to |-> 2]],
+     WNthOp(1, 1), WNthOp(2, 0), [ev |-> "step_by", a |-> [w |-> 2, s |-> 2, m |-> 2]],
+     [ev |-> "takeby", a |-> [w |-> 1, m |-> 2]], WNthOp(1, nn \div 2), WOp("size_hint", 1),
+     WOp("rewind", 2), WOp("next", 2), WNthOp(2, nn - 2), WOp("size_hint", 2), WOp("next", 0) >>
+WinStim ==
+  { << [ev |-> "reset", comp |-> "window", cfg |-> [kind |-> kd, fmt |-> f, n |-> nn, ctor |-> Ctor(nn)]],
+       [ev |-> "take", a |-> [n |-> nn]] >> \o (IF (nn + (IF f = "f64" THEN 0 ELSE 1)) % 2 = 0 THEN WinWalk(nn) ELSE << >>)
+    : kd \in {"hann", "rect"}, f \in {"f64", "f32"}, nn \in 2..25 }
 Stimuli ==
   { << WReset(kd, fc, LL, bb, hh) >> \o Ops(Count(LL, bb, hh) + 2)
     : LL \in 0..MaxL, bb \in 2..MaxB, hh \in 1..MaxH, kd \in {"hann", "rect"}, fc \in Fmts }
-  \cup NthStim \cup FnStim
-  \cup
-  { << [ev |-> "reset", comp |-> "window", cfg |-> [kind |-> kd, fmt |-> f, n |-> nn]],
-       [ev |-> "take", a |-> [n |-> nn]] >>
-    : kd \in {"hann", "rect"}, f \in {"f64", "f32"}, nn \in 2..25 }
+  \cup NthStim \cup FnStim \cup ProvStim \cup CloneStim \cup SetStim \cup WinStim
 WriteStimuli ==
   IF "STIM_OUT" \in DOMAIN IOEnv
     THEN /\ ndJsonSerialize(IOEnv.STIM_OUT, SetToSeq(Stimuli))
